@@ -177,6 +177,55 @@ class ClosureV(Val):
         self.node, self.env = node, env
 
 
+class DeadListV(ListV):
+    """A python list whose every known reference was redirected to a heap object of the contract (comprehension clause run on the loop
+    spelling): any remaining use is rejected, so that a reference the redirection missed cannot be read as a stale list."""
+
+    @property
+    def items(self):
+        raise Unsupported('a list that was replaced by the heap object of a comprehension clause is still referenced')
+
+
+def replace_references(env, old, new):
+    """redirect every reference to the value `old` that the program can reach from its environment (locals, enclosing environments,
+    fields of objects, items of tuples / lists / dicts, conditional values, closures) to `new`"""
+    seen = set()
+
+    def sub(v):
+        return new if v is old else v
+
+    def walk(v):
+        if id(v) in seen or v is new:
+            return
+        seen.add(id(v))
+        if isinstance(v, ChainEnv):
+            for k_ in list(v.own()):
+                x = dict.__getitem__(v, k_)
+                dict.__setitem__(v, k_, sub(x))
+                walk(x)
+            walk(v.parent)
+        elif isinstance(v, dict):
+            for k_ in list(v):
+                x = v[k_]
+                v[k_] = sub(x)
+                walk(x)
+        elif isinstance(v, ObjV):
+            walk(v.fields)
+        elif type(v) in (TupleV, ListV):
+            v.items[:] = [sub(x) for x in v.items]
+            for x in v.items:
+                walk(x)
+        elif isinstance(v, DictV):
+            walk(v.items)
+        elif isinstance(v, IteV):
+            v.a, v.b = sub(v.a), sub(v.b)
+            walk(v.a)
+            walk(v.b)
+        elif isinstance(v, ClosureV):
+            walk(v.env)
+    walk(env)
+
+
 class PoisonV(Val):
     """The value of a local after a loop havoc when no arbitrary value of its kind can be constructed: unreadable."""
 
@@ -343,7 +392,21 @@ class Path:
 
 def accumulator_shape(st):
     """(steps, append-call) if the for-loop body is `[target = e;]* [if c:] NAME.append(e)` (lets may unpack tuples), else None"""
-    body = list(st.body)
+    steps, body = loop_steps(st.body)
+    if len(body) != 1 or not isinstance(body[0], ast.Expr) or not isinstance(body[0].value, ast.Call):
+        return None
+    call = body[0].value
+    if not (isinstance(call.func, ast.Attribute) and call.func.attr == 'append' and isinstance(call.func.value, ast.Name)
+            and len(call.args) == 1 and not call.keywords):
+        return None
+    if st.orelse:
+        return None
+    return steps, call
+
+
+def loop_steps(body):
+    """(steps, rest) for a loop body `[target = e;]* [if c:]* <rest>`: the local bindings and conditions in front of the last statements"""
+    body = list(body)
     steps = []
     while True:
         while len(body) > 1 and isinstance(body[0], ast.Assign) and len(body[0].targets) == 1 \
@@ -355,15 +418,90 @@ def accumulator_shape(st):
             body = list(body[0].body)
             continue
         break
-    if len(body) != 1 or not isinstance(body[0], ast.Expr) or not isinstance(body[0].value, ast.Call):
+    return steps, body
+
+
+def yield_shape(st):
+    """(steps, element expression) if the for-loop body is `[target = e;]* [if c:]* yield e`: the loop of a generator FUNCTION that is
+    the generator expression `(e for target in it if c)`, else None"""
+    steps, body = loop_steps(st.body)
+    if st.orelse or len(body) != 1 or not isinstance(body[0], ast.Expr) or not isinstance(body[0].value, ast.Yield) \
+            or body[0].value.value is None:
         return None
-    call = body[0].value
-    if not (isinstance(call.func, ast.Attribute) and call.func.attr == 'append' and isinstance(call.func.value, ast.Name)
-            and len(call.args) == 1 and not call.keywords):
+    for s_ in steps:         # a yield anywhere else (inside a binding or a condition) is not this shape
+        for n in ast.walk(s_[-1]):
+            if isinstance(n, (ast.Yield, ast.YieldFrom)):
+                return None
+    for n in ast.walk(body[0].value.value):
+        if isinstance(n, (ast.Yield, ast.YieldFrom)):
+            return None
+    return steps, body[0].value.value
+
+
+def index_loop_shape(st):
+    """(index name, bound expression) if the while loop is the index spelling of a `for` loop over positions:
+           while I < BOUND:  <body without another assignment to I and without `continue`>;  I += 1
+    else None.  (`for i, x in enumerate(seq)` / `for i in range(n)` written as `i = 0; while i < len(seq): x = seq[i]; ...; i += 1`.)"""
+    t = st.test
+    if st.orelse or not (isinstance(t, ast.Compare) and len(t.ops) == 1 and len(t.comparators) == 1):
         return None
-    if st.orelse:
+    if isinstance(t.ops[0], ast.Lt) and isinstance(t.left, ast.Name):
+        name, bound = t.left.id, t.comparators[0]
+    elif isinstance(t.ops[0], ast.Gt) and isinstance(t.comparators[0], ast.Name):
+        name, bound = t.comparators[0].id, t.left
+    else:
         return None
-    return steps, call
+    if not st.body:
+        return None
+    last = st.body[-1]
+    one = lambda n: isinstance(n, ast.Constant) and type(n.value) is int and n.value == 1
+    if isinstance(last, ast.AugAssign) and isinstance(last.op, ast.Add) and isinstance(last.target, ast.Name) and last.target.id == name \
+            and one(last.value):
+        pass
+    elif isinstance(last, ast.Assign) and len(last.targets) == 1 and isinstance(last.targets[0], ast.Name) and last.targets[0].id == name \
+            and isinstance(last.value, ast.BinOp) and isinstance(last.value.op, ast.Add) \
+            and ((isinstance(last.value.left, ast.Name) and last.value.left.id == name and one(last.value.right))
+                 or (isinstance(last.value.right, ast.Name) and last.value.right.id == name and one(last.value.left))):
+        pass
+    else:
+        return None
+    if name in assigned_names(st.body[:-1]) or name in assigned_names([ast.Expr(bound)]):
+        return None
+    todo = list(st.body)
+    while todo:          # a `continue` of THIS loop would skip the increment
+        n = todo.pop()
+        if isinstance(n, ast.Continue):
+            return None
+        if isinstance(n, (ast.For, ast.While, ast.FunctionDef, ast.Lambda, ast.ClassDef)):
+            continue
+        todo.extend(ast.iter_child_nodes(n))
+    return name, bound
+
+
+def consuming_positions(root):
+    """{id(call node): 'collect' | 'iterate'} for every call expression inside `root` whose VALUE is consumed at the call site and
+    nowhere else (the value never gets a name, so it cannot be consumed twice or partially elsewhere):
+      'collect'  f(*CALL) as the only starred argument source, list(CALL), tuple(CALL): the consumer exhausts the iterable before
+                 anything else happens (a pure collector does nothing between two items);
+      'iterate'  for x in CALL: ..., a comprehension `for x in CALL`, yield from CALL: the consumer's own code runs between the items."""
+    out = {}
+    for n in ast.walk(root):
+        if isinstance(n, ast.Call):
+            for a in n.args:
+                if isinstance(a, ast.Starred) and isinstance(a.value, ast.Call):
+                    out[id(a.value)] = 'collect'
+            if isinstance(n.func, ast.Name) and n.func.id in ('list', 'tuple') and len(n.args) == 1 and not n.keywords \
+                    and isinstance(n.args[0], ast.Call):
+                out[id(n.args[0])] = 'collect'
+        elif isinstance(n, ast.For) and isinstance(n.iter, ast.Call):
+            out[id(n.iter)] = 'iterate'
+        elif isinstance(n, (ast.ListComp, ast.GeneratorExp, ast.SetComp, ast.DictComp)):
+            for g in n.generators:
+                if isinstance(g.iter, ast.Call):
+                    out[id(g.iter)] = 'iterate'
+        elif isinstance(n, ast.YieldFrom) and isinstance(n.value, ast.Call):
+            out[id(n.value)] = 'iterate'
+    return out
 
 
 _API_DEFAULTS = None
@@ -434,6 +572,17 @@ class LoopSpec:
         if self.phased:
             return self.invariant(*args, phase=phase)
         return self.invariant(*args)
+
+    def is_indexed(self):
+        """the invariant REQUIRES the ghost index k (the clause of a `for` loop: k items processed); a clause whose k is optional serves
+        both loop statements"""
+        import inspect
+        try:
+            ps = [q for q in inspect.signature(self.invariant).parameters.values()
+                  if q.name != 'phase' and q.kind in (q.POSITIONAL_ONLY, q.POSITIONAL_OR_KEYWORD) and q.default is q.empty]
+        except (TypeError, ValueError):
+            return False
+        return len(ps) >= 2
 
 
 class EnvView:
@@ -646,6 +795,36 @@ def assigned_names(stmts):
     return names
 
 
+def names_reaching_head(stmts):
+    """The names a loop body may have assigned when control comes back to the loop head (the iteration ends by falling off the end of
+    the body or by `continue`).  An assignment that is followed, on every path, by `break` / `return` / `raise` never reaches the head:
+    at the head (and at the normal exit) such a name still has the value it had before the loop, so it is not part of the loop's havoc
+    set (`found = False; for x in xs: if c(x): found = True; break`).  Nested loops, try and with blocks are taken as a whole (all
+    their assigned names, control may continue after them)."""
+    def block(stmts, pre):
+        """pre: names assigned so far on this path, or None if the path is dead.  -> (names at fall-through or None, names at continue)"""
+        cont = set()
+        for st in stmts:
+            if pre is None:
+                break
+            if isinstance(st, (ast.Break, ast.Return, ast.Raise)):
+                pre = None
+            elif isinstance(st, ast.Continue):
+                cont |= pre
+                pre = None
+            elif isinstance(st, ast.If):
+                here = pre | assigned_names([ast.Expr(st.test)])
+                f1, c1 = block(st.body, set(here))
+                f2, c2 = block(st.orelse, set(here))
+                cont |= c1 | c2
+                pre = None if f1 is None and f2 is None else (f1 or set()) | (f2 or set())
+            else:
+                pre = pre | assigned_names([st])
+        return pre, cont
+    fall, cont = block(stmts, set())
+    return (fall or set()) | cont
+
+
 def flat_env(env):
     """a plain-dict snapshot of an environment (ChainEnv: own names over the defining environment)"""
     if isinstance(env, ChainEnv):
@@ -679,6 +858,7 @@ class Interp:
     def __init__(self, eng, path, loops, extracted):
         self.eng, self.path, self.loops, self.x = eng, path, loops or {}, extracted
         self.loop_ordinals = {}
+        self.try_stack = []         # (handlers, env) of the try statements whose try suite is being executed, innermost last
         self.stmt_ordinals = {}     # id(stmt) -> 'If#0', 'Assign#3', ... (ordinal among statements of that type, source order)
         n = 0
         counts = {}
@@ -691,6 +871,9 @@ class Interp:
                     continue
                 self.loop_ordinals[id(node)] = n
                 n += 1
+        self.walrus_in_comprehension = set()
+        self.consumers = {}
+        self.index_expressions(extracted.node)
         accs = sorted((x for x in ast.walk(extracted.node) if isinstance(x, ast.For) and self.loop_ordinals.get(id(x)) == -1),
                       key=lambda x: (x.lineno, x.col_offset))
         self.accumulator_ordinals = {id(x): 'Accumulator#%d' % i for i, x in enumerate(accs)}      # source order
@@ -706,28 +889,33 @@ class Interp:
             self.stmt_ordinals[id(node)] = '%s#%d' % (t, counts.get(t, 0))
             counts[t] = counts.get(t, 0) + 1
 
+    def index_expressions(self, root):
+        """static facts about the expressions of a function text that is executed (the function under contract, a helper executed in
+        place): assignment expressions inside comprehensions, call expressions in a consuming position"""
+        self.walrus_in_comprehension |= {id(w) for c in ast.walk(root)
+                                         if isinstance(c, (ast.ListComp, ast.GeneratorExp, ast.SetComp, ast.DictComp, ast.Lambda))
+                                         for w in ast.walk(c) if isinstance(w, ast.NamedExpr)}
+        self.consumers.update(consuming_positions(root))
+
+    def index_helper(self, fn):
+        """the loops of a helper executed in place: an accumulator-shaped loop is a closed form (ordinal -1, as in the function under
+        contract); any other loop has no contract clause (ordinal None: it runs only over a sequence of concrete length)"""
+        if getattr(fn, '_pyvc_indexed_by', None) is self:
+            return
+        fn._pyvc_indexed_by = self
+        for node in ast.walk(fn):
+            if isinstance(node, (ast.For, ast.While)):
+                self.loop_ordinals[id(node)] = -1 if isinstance(node, ast.For) and accumulator_shape(node) is not None else None
+        self.index_expressions(fn)
+
     def call_closure(self, clo, args, kwargs):
         """Call of a nested function of the function under contract: its body is executed in place (it is part of the
         verified text), free variables resolve in the defining environment."""
         if not getattr(clo, 'callable', False):
             raise Unsupported('call of nested function %s with a complex signature' % clo.node.name)
-        params = [x.arg for x in clo.node.args.args]
-        if len(args) > len(params):
-            raise PyRaise('TypeError')
-        inner = ChainEnv(clo.env)
-        for nm, v in zip(params, args):
-            inner[nm] = v
-        for nm, v in kwargs.items():
-            if nm not in params or nm in inner.own():
-                raise PyRaise('TypeError')
-            inner[nm] = v
-        nd = len(clo.defaults)
-        for nm, v in zip(params[len(params) - nd:], clo.defaults):
-            if nm not in inner.own():
-                inner[nm] = v
-        for nm in params:
-            if nm not in inner.own():
-                raise PyRaise('TypeError')
+        if getattr(clo, 'generator_helper', False):
+            raise Unsupported('generator helper %s whose value is not consumed at the call site' % clo.node.name)
+        inner = self.bind_closure_args(clo, args, kwargs)
         body = clo.node.body
         if body and isinstance(body[0], ast.Expr) and isinstance(body[0].value, ast.Constant) and isinstance(body[0].value.value, str):
             body = body[1:]
@@ -746,18 +934,47 @@ class Interp:
             finally:
                 self.path.out = outer_out
             return ghook(self.path, clo.node.name, segs)
+        helper = getattr(clo, 'generator_helper', None) is not None      # a helper executed in place (helper_closure): bounded nesting
+        if helper:
+            self._helper_depth = getattr(self, '_helper_depth', 0) + 1
         try:
             self.exec_block(body, inner)
         except _Return as r:
             return r.value
+        finally:
+            if helper:
+                self._helper_depth -= 1
         return NONE
+
+    def bind_closure_args(self, clo, args, kwargs):
+        params = [x.arg for x in clo.node.args.args]
+        if len(args) > len(params):
+            raise PyRaise('TypeError')
+        inner = ChainEnv(clo.env)
+        for nm, v in zip(params, args):
+            inner[nm] = v
+        for nm, v in kwargs.items():
+            if nm not in params or nm in inner.own():
+                raise PyRaise('TypeError')
+            inner[nm] = v
+        nd = len(clo.defaults)
+        for nm, v in zip(params[len(params) - nd:], clo.defaults):
+            if nm not in inner.own():
+                inner[nm] = v
+        for nm in params:
+            if nm not in inner.own():
+                raise PyRaise('TypeError')
+        return inner
 
     def helper_closure(self, name, receiver):
         """A helper the function under contract calls and the contract does not know (typically the product of an `extract function`
         refactoring): a plain module-level function of the same file (receiver None), or a plain method of the same class called on the
         first parameter of the method under contract (receiver = that object).  Its real body is executed in place, like a nested
-        function: it is part of the verified text, every obligation downstream is generated from what it really does.  Only loop-free,
-        undecorated, non-generator helpers with a simple signature qualify; anything else stays Unsupported (ungenerated)."""
+        function: it is part of the verified text, every obligation downstream is generated from what it really does.  Only
+        undecorated helpers with a simple signature and without while / try / with / global / nonlocal qualify; a `for` loop inside runs
+        like a loop without a contract clause in the function under contract (over a sequence of concrete length, or as the closed form
+        of an accumulator loop).  A GENERATOR helper is executed in place only where its value is consumed at the call site, see
+        `call_generator_helper`.  Anything else stays Unsupported (ungenerated)."""
         if not self.loops.get('inline_helpers', True):
             return None
         rel = getattr(self.x, 'relpath', None)
@@ -778,7 +995,7 @@ class Interp:
         if len(found) != 1:
             return None
         fn = found[0]
-        if fn is self.x.node or fn.decorator_list or _is_generator(fn):
+        if fn is self.x.node or fn.decorator_list:
             return None
         a = fn.args
         if a.vararg or a.kwarg or a.kwonlyargs or a.posonlyargs:
@@ -786,16 +1003,73 @@ class Interp:
         depth = getattr(self, '_helper_depth', 0)
         if depth > 3:
             return None
+        gen = _is_generator(fn)
         for n in ast.walk(fn):
-            if isinstance(n, (ast.For, ast.While, ast.AsyncFor, ast.Global, ast.Nonlocal, ast.Try, ast.With)):
+            if isinstance(n, (ast.While, ast.AsyncFor, ast.Global, ast.Nonlocal, ast.Try, ast.With, ast.AsyncWith, ast.Await,
+                              ast.AsyncFunctionDef, ast.ClassDef)):
                 return None
+            if gen and (isinstance(n, ast.YieldFrom) or (isinstance(n, ast.Return) and n.value is not None)
+                        or (isinstance(n, (ast.FunctionDef, ast.Lambda)) and n is not fn)):
+                return None        # a generator helper is its sequence of plain `yield e` statements, nothing else
+        if gen and receiver is not None:
+            return None
+        self.index_helper(fn)
         clo = ClosureV(fn, ChainEnv({}))
         clo.callable = True
         clo.defaults = [self.eval(d, {}) for d in a.defaults]
+        clo.generator_helper = gen
         self.eng.inlined_helpers.add(name if receiver is None else '%s.%s' % (self.x.cls.name, name))
         if receiver is None:
             return clo
         return FuncV('helper.' + name, lambda p, args, kw, _c=clo, _o=receiver: self.call_closure(_c, [_o] + list(args), kw))
+
+    def call_generator_helper(self, clo, args, kwargs, consumer):
+        """Call of a generator helper of the same module (helper_closure) whose value is consumed at the call site
+        (`consumer`, see consuming_positions; a generator object that gets a name could be consumed partially, twice, or interleaved with
+        anything -- unsupported).  Python runs the body lazily, one segment per item the consumer asks for; the engine runs it at the
+        call.  That is the same computation exactly when nothing the body does is interleaved with something the consumer does:
+
+          (1) the body is ONE loop `for x in it: [y = e;]* [if c:]* yield e` over a contract iterable: the generator IS the generator
+              expression `(e for x in it if c)` (local bindings per item, in order) and gets the engine's closed form of a
+              comprehension (item k is computed from it[k] alone, on demand), under the same standing assumption as every closed form:
+              the element and the conditions are side-effect free (contract functions called there are pure).  Any consumer.
+          (2) any other body (straight-line yields, loops over sequences of concrete length) is run to exhaustion at the call and gives
+              the list of the yielded values -- admissible for a COLLECTING consumer only (`f(*g(..))`, `list(g(..))`, `tuple(g(..))`):
+              it exhausts the generator before anything else happens and does nothing between two items, so every effect of the body
+              precedes everything after the call in both evaluation orders, and an exception of the body leaves at the same point.
+              With an iterating consumer (`for`, a comprehension, `yield from`) the consumer's code would run between the segments:
+              unsupported."""
+        fn = clo.node
+        inner = self.bind_closure_args(clo, args, kwargs)
+        body = list(fn.body)
+        if body and isinstance(body[0], ast.Expr) and isinstance(body[0].value, ast.Constant) and isinstance(body[0].value.value, str):
+            body = body[1:]
+        while body and isinstance(body[-1], ast.Return) and body[-1].value is None:
+            body = body[:-1]
+        if len(body) == 1 and isinstance(body[0], ast.For) and yield_shape(body[0]) is not None:
+            st = body[0]
+            steps, elt = yield_shape(st)
+            it = _chars(self.eval(st.iter, inner))
+            if isinstance(it, ObjV) and '__iter__' in it.fields:
+                it = self.call(it.fields['__iter__'], [it], {})
+            if isinstance(it, (IterV, SeqV)):
+                return self.closed_loop_form(st.target, steps, elt, it, inner)
+        if consumer != 'collect':
+            raise Unsupported('generator helper %s consumed by an iterating consumer and not of the one-loop form' % fn.name)
+        outer_out = self.path.out
+        self.path.out = []
+        depth = getattr(self, '_helper_depth', 0)
+        self._helper_depth = depth + 1
+        try:
+            try:
+                self.exec_block(body, inner)
+            except _Return:
+                pass
+            segs = self.path.out
+        finally:
+            self.path.out = outer_out
+            self._helper_depth = depth
+        return ListV(segs)
 
     def bind_defaults(self, env):
         """Parameters the harness leaves unbound get their default expression from the real signature
@@ -972,6 +1246,15 @@ class Interp:
         else:
             raise Unsupported('statement %s' % type(st).__name__)
 
+    def catches(self, excname):
+        """the statement being executed sits in the try suite of a `try` with a handler for `excname` (A-EXC: an index / key that may
+        be absent is an obligation UNLESS the code catches the exception; a library contract asks here and then raises instead)"""
+        for handlers, env in reversed(self.try_stack):
+            for h in handlers:
+                if h.type is None or exc_matches(excname, self.eval(h.type, env)):
+                    return True
+        return False
+
     def exec_try(self, st, env):
         if st.finalbody:
             # try/.../finally: the finally suite runs on every exit of the python program (normal end, return, break, continue,
@@ -992,7 +1275,12 @@ class Interp:
             self.exec_block(st.orelse, env)
             return
         try:
-            self.exec_block(st.body, env)
+            # the handlers protect the try suite only (not the handlers themselves, nor else / finally)
+            self.try_stack.append((st.handlers, env))
+            try:
+                self.exec_block(st.body, env)
+            finally:
+                self.try_stack.pop()
         except PyRaise as r:
             for h in st.handlers:
                 if h.type is None or exc_matches(r.exc, self.eval(h.type, env)):
@@ -1035,16 +1323,20 @@ class Interp:
     def exec_while(self, st, env):
         p = self.path
         n = self.loop_ordinals[id(st)]
-        spec = self.loops.get(n)
+        spec = self.loops.get(n) if n is not None else None
         if spec is None:
-            raise Unsupported('while loop #%d without invariant' % n)
+            if self.unroll_while(st, env):
+                return
+            raise Unsupported('while loop #%s without invariant' % n)
         if st.orelse:
             raise Unsupported('while/else')
+        if spec.is_indexed():
+            return self.exec_index_while(st, env, n, spec)
         if getattr(spec, 'on_entry', None):
             spec.on_entry(p, env)
         for nm, f in spec.inv('entry', EnvView(env, p)):
             p.oblige('inv.entry#%d/%s' % (n, nm), 'inv.entry', f)
-        mod = assigned_names(st.body) | set(getattr(spec, 'modifies', ()))
+        mod = names_reaching_head(st.body) | assigned_names([ast.Expr(st.test)]) | set(getattr(spec, 'modifies', ()))
         for v in list(mod):
             if v not in env:
                 mod.discard(v)
@@ -1060,7 +1352,13 @@ class Interp:
             except _Continue:
                 pass
             except _Break:
-                raise Unsupported('break in while loop')
+                # the path leaves the loop from inside the body: execution continues after the loop in the state AT THE BREAK -- the
+                # invariant assumed at the head of this iteration, the loop test (true at that head) and the effects of the part of
+                # the body that was executed.  Neither the invariant nor the variant is owed (no further iteration is entered) and
+                # the negated loop test is NOT assumed.  The clause may take note of the exit (`on_break`: ghost state, obligations).
+                if getattr(spec, 'on_break', None):
+                    spec.on_break(p, env)
+                return
             for nm, f in spec.inv('preserve', EnvView(env, p)):
                 p.oblige('inv.preserve#%d/%s' % (n, nm), 'inv.preserve', f)
             if v0 is not None:
@@ -1068,6 +1366,93 @@ class Interp:
                 p.oblige('variant#%d' % n, 'variant', And(v1 >= 0, v1 < v0))
             raise BodyEnd('loop body done')
         # exit: invariant and not cond are in pc
+
+    def unroll_while(self, st, env, limit=256):
+        """a while loop without a clause whose test has a concrete truth value every time it is evaluated is plain execution (a loop
+        over a literal table written with an index): run as it is, up to `limit` iterations"""
+        count = 0
+        while True:
+            c = z3.simplify(truthy(self.eval(st.test, env)))
+            if z3.is_false(c):
+                self.exec_block(st.orelse, env)
+                return True
+            if not z3.is_true(c):
+                if count == 0:
+                    return False
+                raise Unsupported('while loop without invariant: the test is no longer concrete after %d iterations' % count)
+            count += 1
+            if count > limit:
+                raise Unsupported('while loop without invariant: more than %d concrete iterations' % limit)
+            try:
+                self.exec_block(st.body, env)
+            except _Continue:
+                continue
+            except _Break:
+                return True
+
+    def exec_index_while(self, st, env, n, spec):
+        """The index spelling `I = 0; while I < BOUND: ...; I += 1` (index_loop_shape) of a loop whose clause is the clause of a `for`
+        loop (its invariant takes the number k of items processed): the ghost index IS the index variable.  Read off the code and
+        checked: I is 0 at entry, 0 <= BOUND, every completed iteration leaves I = k + 1 and BOUND unchanged (obligations
+        `index-range`); then the clause runs exactly as for the `for` loop -- entry with k = 0, preservation from k to k + 1, at the exit
+        k = BOUND.  The body fetches its items itself (`x = seq[I]`: an index obligation of the sequence)."""
+        p = self.path
+        shape = index_loop_shape(st)
+        if shape is None:
+            raise Unsupported('while loop #%d under the clause of a for-loop is not of the index form' % n)
+        name, bound_node = shape
+        cur = env.get(name)
+        if not (isinstance(cur, IntV) and z3.is_int_value(z3.simplify(cur.t)) and z3.simplify(cur.t).as_long() == 0):
+            raise Unsupported('index loop #%d: %s is not 0 at the loop entry' % (n, name))
+        if getattr(spec, 'yields', None) is not None:
+            raise Unsupported('index loop #%d under a clause with a yields part' % n)
+
+        def bound():
+            b = self.eval(bound_node, env)
+            if not isinstance(b, IntV):
+                raise Unsupported('index loop #%d: the bound is not an int' % n)
+            return b.t
+        b0 = bound()
+        p.ghost.pop('iter#%d' % n, None)
+        if getattr(spec, 'on_entry', None):
+            spec.on_entry(p, env)
+        p.oblige('inv.entry#%d/index-range' % n, 'inv.entry', 0 <= b0)
+        for nm, f in spec.inv('entry', EnvView(env, p), IntVal(0)):
+            p.oblige('inv.entry#%d/%s' % (n, nm), 'inv.entry', f)
+        mod = names_reaching_head(st.body) | set(getattr(spec, 'modifies', ()))
+        self.havoc({v for v in mod if v in env}, env)
+        k = p.fresh_int('k')
+        env[name] = IntV(k)
+        for o in getattr(spec, 'havoc_objs', ()):
+            o.havoc(p)
+        if spec.ghost_havoc:
+            spec.ghost_havoc(p, env)
+        bh = bound()
+        p.assume(And(k >= 0, k <= bh, bh == b0))
+        for nm, f in spec.inv('assume', EnvView(env, p), k):
+            p.assume(f)
+        if p.branch_truthy(self.eval(st.test, env)):
+            p.ghost['k'] = p.ghost['k#%d' % n] = k
+            n_out = len(p.out)
+            try:
+                self.exec_block(st.body, env)
+            except _Continue:
+                raise Unsupported('continue in an index loop')
+            except _Break:
+                if len(p.out) != n_out:
+                    raise Unsupported('break in an index loop that yields')
+                if getattr(spec, 'on_break', None):
+                    spec.on_break(p, env)
+                return
+            if len(p.out) != n_out:
+                raise Unsupported('yield inside a contract loop without a yields clause')
+            after = env.get(name)
+            p.oblige('inv.preserve#%d/index-range' % n, 'inv.preserve',
+                     And(after.t == k + 1, bound() == bh) if isinstance(after, IntV) else BoolVal(False))
+            for nm, f in spec.inv('preserve', EnvView(env, p), k + 1):
+                p.oblige('inv.preserve#%d/%s' % (n, nm), 'inv.preserve', f)
+            raise BodyEnd('loop body done')
+        # exit: the invariant for k, not (k < BOUND) and k <= BOUND are in pc, hence k = BOUND
 
     def exec_for(self, st, env):
         p = self.path
@@ -1101,20 +1486,26 @@ class Interp:
             it = IterV(it.at, it.length, it.name)
         if not isinstance(it, IterV):
             raise Unsupported('for over %s' % type(it).__name__)
-        spec = self.loops.get(n)
+        if n == -1:
+            # an accumulator-SHAPED loop (`for x in it: NAME.append(e)`) that is not the closed form of a local list (NAME is an object
+            # of the contract, e.g. `self`): it may run under a clause keyed by its accumulator ordinal, 'Accumulator#k'
+            if self.accumulator_loop(st, orig_it, env):
+                return
+            n = self.accumulator_ordinals.get(id(st))
+        spec = self.loops.get(n) if n is not None else None
         if spec is None:
             if self.accumulator_loop(st, orig_it, env):
                 return
-            if self.comprehension_spec_loop(st, it, env):
+            if n is not None and self.comprehension_spec_loop(st, it, env):
                 return
-            raise Unsupported('for loop #%d without invariant' % n)
+            raise Unsupported('for loop #%s without invariant' % n)
         p.assume(it.length >= 0)
-        p.ghost['iter#%d' % n] = it      # the iterable of the contract loop, visible to its clauses (e.g. to read off the iteration order)
+        p.ghost['iter#%s' % n] = it      # the iterable of the contract loop, visible to its clauses (e.g. to read off the iteration order)
         if getattr(spec, 'on_entry', None):
             spec.on_entry(p, env)
         for nm, f in spec.inv('entry', EnvView(env, p), IntVal(0)):
-            p.oblige('inv.entry#%d/%s' % (n, nm), 'inv.entry', f)
-        mod = assigned_names(st.body) | assigned_names([ast.Expr(st.target)]) | set(getattr(spec, 'modifies', ()))
+            p.oblige('inv.entry#%s/%s' % (n, nm), 'inv.entry', f)
+        mod = names_reaching_head(st.body) | assigned_names([ast.Expr(st.target)]) | set(getattr(spec, 'modifies', ()))
         for v in list(mod):
             if v not in env:
                 mod.discard(v)
@@ -1128,7 +1519,7 @@ class Interp:
         for nm, f in spec.inv('assume', EnvView(env, p), k):
             p.assume(f)
         if p.branch(k < it.length):
-            p.ghost['k'] = p.ghost['k#%d' % n] = k      # ghost loop index, visible to `use lemma` hooks
+            p.ghost['k'] = p.ghost['k#%s' % n] = k      # ghost loop index, visible to `use lemma` hooks
             item = it.at(k)
             if it.facts:
                 p.assume(it.facts(k))
@@ -1142,57 +1533,84 @@ class Interp:
             except _Continue:
                 pass
             except _Break:
-                raise Unsupported('break in contract for-loop')
+                # as in exec_while: the state at the break is the invariant for the first k items, item k bound to the target and the
+                # effects of the executed part of the body; `k == len` (exhaustion) is not assumed.  A yield before the break in a loop
+                # with a `yields` clause (which speaks about whole iterations) stays unsupported.
+                if ys is not None or len(p.out) != n_out:
+                    raise Unsupported('break in a contract for-loop that yields')
+                if getattr(spec, 'on_break', None):
+                    spec.on_break(p, env)
+                return
             if ys is not None:
                 # the loop is a filter/map of its iterable: iteration k yields exactly `yval` iff `ycond`
                 new = p.out[n_out:]
-                p.oblige('yield#%d/count' % n, 'yield', BoolVal(len(new) <= 1))
-                p.oblige('yield#%d/iff' % n, 'yield', ycond == BoolVal(len(new) == 1))
+                p.oblige('yield#%s/count' % n, 'yield', BoolVal(len(new) <= 1))
+                p.oblige('yield#%s/iff' % n, 'yield', ycond == BoolVal(len(new) == 1))
                 if len(new) == 1:
-                    p.oblige('yield#%d/value' % n, 'yield', yval(new[0]) if callable(yval) else self.values_equal(new[0], yval))
+                    p.oblige('yield#%s/value' % n, 'yield', yval(new[0]) if callable(yval) else self.values_equal(new[0], yval))
             elif len(p.out) != n_out:
                 raise Unsupported('yield inside a contract loop without a yields clause')
             for nm, f in spec.inv('preserve', EnvView(env, p), k + 1):
-                p.oblige('inv.preserve#%d/%s' % (n, nm), 'inv.preserve', f)
+                p.oblige('inv.preserve#%s/%s' % (n, nm), 'inv.preserve', f)
             raise BodyEnd('loop body done')
         p.assume(k == it.length)
 
     def comprehension_spec_loop(self, st, it, env):
-        """The explicit-loop spelling of an impure set comprehension that has a `comprehension_loops` clause:
+        """The explicit-loop spelling of an impure comprehension that has a `comprehension_loops` clause:
             {elt for x in xs if c1 and not side_effect(...)}   <->   acc = set(); for x in xs: if c1: side_effect(...); acc.add(elt)
-        The clause (entry / preservation of an invariant over the loop index and the accumulated set) is about the iteration, not about
-        the spelling: when the comprehension it is keyed by is absent from the current source and this loop fills a local that holds the
-        empty set built by `set()`, the loop is run under the same clause and generates the same obligations.  The accumulator becomes
-        the heap object `spec.result(acc)`, so the body's real statements (add / remove / membership tests) act on it."""
+            [elt for x in xs if c1 and not side_effect(...)]   <->   acc = [];    for x in xs: if c1: side_effect(...); acc.append(elt)
+        The clause (entry / preservation of an invariant over the loop index and the accumulated collection) is about the iteration, not
+        about the spelling: when the comprehension it is keyed by is absent from the current source and this loop fills a local that
+        holds the empty set built by `set()` / an empty list, the loop is run under the same clause and generates the same obligations.
+        The accumulator becomes the heap object `spec.result(acc)`, so the body's real statements (add / append / remove / membership
+        tests) act on it.  For a list every reference to the empty list (other locals, fields of objects: `self._items = items = []`) is
+        redirected to the heap object and the old value is made unusable (a reference that was missed cannot be read silently)."""
         cspecs = self.loops.get('comprehension_loops', {})
         live = set(self.stmt_ordinals.values())
-        unused = [k for k in cspecs if k not in live and k.startswith('SetComp#')]
-        if len(unused) != 1:
-            return False
-        tag, spec = unused[0], cspecs[unused[0]]
-        names = {c.func.value.id for c in ast.walk(st) if isinstance(c, ast.Call) and isinstance(c.func, ast.Attribute)
-                 and c.func.attr == 'add' and isinstance(c.func.value, ast.Name)}
-        names = {nm for nm in names if nm in env and isinstance(env[nm], ObjV) and env[nm].cls == 'set' and env[nm].name == 'set()'
-                 and not env[nm].fields}
-        if len(names) != 1:
-            return False
-        name = names.pop()
-        marker = env[name]
-        if any(v is marker for nm, v in env.items() if nm != name):
-            return False        # the empty set has another name: replacing the local would lose the alias
+        used = self.__dict__.setdefault('_cspecs_used', set())
+        for kind, attr in (('SetComp#', 'add'), ('ListComp#', 'append')):
+            unused = [k for k in cspecs if k not in live and k.startswith(kind) and k not in used]
+            if len(unused) != 1:
+                continue
+            tag, spec = unused[0], cspecs[unused[0]]
+            names = {c.func.value.id for c in ast.walk(st) if isinstance(c, ast.Call) and isinstance(c.func, ast.Attribute)
+                     and c.func.attr == attr and isinstance(c.func.value, ast.Name)}
+            if kind == 'SetComp#':
+                names = {nm for nm in names if nm in env and isinstance(env[nm], ObjV) and env[nm].cls == 'set'
+                         and env[nm].name == 'set()' and not env[nm].fields}
+            else:
+                names = {nm for nm in names if nm in env and type(env[nm]) is ListV and not env[nm].items}
+            if len(names) != 1:
+                continue
+            name = names.pop()
+            marker = env[name]
+            if kind == 'SetComp#' and any(v is marker for nm, v in flat_env(env).items() if nm != name):
+                continue        # the empty set has another name: replacing the local would lose the alias
+            used.add(tag)
+            self.run_comprehension_spec_loop(st, it, env, tag, spec, name, marker, kind)
+            return True
+        return False
+
+    def run_comprehension_spec_loop(self, st, it, env, tag, spec, name, marker, kind):
         p = self.path
         p.assume(it.length >= 0)
         if getattr(spec, 'on_entry', None):
             spec.on_entry(p, env)
         for nm, f in spec.invariant(EnvView(env, p), IntVal(0), spec.acc0):
             p.oblige('inv.entry@%s/%s' % (tag, nm), 'inv.entry', f)
-        mod = (assigned_names(st.body) | assigned_names([ast.Expr(st.target)])) - {name}
+        aliases = {nm for nm, v in flat_env(env).items() if v is marker}
+        mod = (assigned_names(st.body) | assigned_names([ast.Expr(st.target)])) - aliases
         self.havoc({v for v in mod if v in env}, env)
         k = p.fresh_int('k')
         p.assume(And(k >= 0, k <= it.length))
         acc = spec.fresh_acc(p)
         spec.havoc(p)
-        obj = env[name] = spec.result(p, acc)
+        obj = spec.result(p, acc)
+        if kind == 'ListComp#':
+            replace_references(env, marker, obj)
+            marker.__class__ = DeadListV
+        else:
+            env[name] = obj
         for nm, f in spec.invariant(EnvView(env, p), k, acc):
             p.assume(f)
         if p.branch(k < it.length):
@@ -1208,12 +1626,11 @@ class Interp:
                 raise Unsupported('break in a comprehension-clause loop')
             if env.get(name) is not obj:
                 raise Unsupported('the accumulator %s is rebound inside the loop' % name)
-            content = spec.content(obj) if hasattr(spec, 'content') else obj.P
+            content = spec.content(obj) if hasattr(spec, 'content') else (obj.s if kind == 'ListComp#' else obj.P)
             for nm, f in spec.invariant(EnvView(env, p), k + 1, content):
                 p.oblige('inv.preserve@%s/%s' % (tag, nm), 'inv.preserve', f)
             raise PathEnd('comprehension-clause loop body done')
         p.assume(k == it.length)
-        return True
 
     def values_equal(self, a, b):
         return values_equal(a, b)
@@ -1248,8 +1665,17 @@ class Interp:
         if shape is None:
             return False
         steps, call, name = shape
-        env[name] = hook(self, env, CompView(self, env, 'Accumulator', st.iter, st.target, steps, call.args[0], source=source))
+        self.rebind_accumulator(env, name, hook(self, env, CompView(self, env, 'Accumulator', st.iter, st.target, steps, call.args[0],
+                                                                    source=source)))
         return True
+
+    def rebind_accumulator(self, env, name, value):
+        """the empty list an accumulator loop fills becomes the closed form of the loop -- under every reference the program has to it
+        (`self._items = items = []`), not only under the local name; the old value is made unusable"""
+        marker = env[name]
+        env[name] = value
+        replace_references(env, marker, value)
+        marker.__class__ = DeadListV
 
     def accumulator_loop(self, st, it, env):
         """A for-loop over a contract iterable whose body is `[x = e;] [if c:] acc.append(e)` with `acc` a local list that is
@@ -1260,11 +1686,17 @@ class Interp:
         if shape is None:
             return False
         steps, call, name = shape
+        self.rebind_accumulator(env, name, self.closed_loop_form(st.target, steps, call.args[0], it, env))
+        return True
+
+    def closed_loop_form(self, target, steps, elt_node, it, env):
+        """the closed form of `for target in it: [y = e;]* [if c:]* <emit elt>` over a contract iterable: a filter descriptor, or the
+        element-wise map (same length, item k from it[k])"""
         base_env = flat_env(env)
 
         def run(k, want):
             inner = dict(base_env)
-            self.assign(st.target, it.at(k), inner)
+            self.assign(target, it.at(k), inner)
             conds = []
             for s_ in steps:
                 if s_[0] == 'let':
@@ -1273,12 +1705,10 @@ class Interp:
                     conds.append(truthy(self.eval(s_[1], inner)))
             if want == 'cond':
                 return And(*conds) if len(conds) > 1 else conds[0]
-            return self.eval(call.args[0], inner)
+            return self.eval(elt_node, inner)
         if any(s_[0] == 'if' for s_ in steps):
-            env[name] = FilterV(it, lambda k: run(k, 'cond'), lambda k: run(k, 'elt'))
-        else:
-            env[name] = IterV(lambda k: run(k, 'elt'), it.length, 'map(%s)' % it.name, getattr(it, 'facts', None))
-        return True
+            return FilterV(it, lambda k: run(k, 'cond'), lambda k: run(k, 'elt'))
+        return IterV(lambda k: run(k, 'elt'), it.length, 'map(%s)' % it.name, getattr(it, 'facts', None))
 
     def assign(self, tgt, v, env):
         if isinstance(tgt, ast.Name):
@@ -1403,6 +1833,14 @@ class Interp:
             if h is not None:
                 return h
             raise Unsupported('unbound name %r' % node.id)
+        if isinstance(node, ast.NamedExpr):
+            # `(name := e)`: binds the name in the scope of the FUNCTION and is the value.  Inside a comprehension the engine evaluates
+            # the element in a per-item copy of the environment, where the binding would be lost: unsupported there.
+            if id(node) in self.walrus_in_comprehension:
+                raise Unsupported('assignment expression inside a comprehension')
+            v = self.eval(node.value, env)
+            self.assign(node.target, v, env)
+            return v
         if isinstance(node, ast.Tuple):
             return TupleV([self.eval(e, env) for e in node.elts])
         if isinstance(node, ast.List):
@@ -1490,6 +1928,14 @@ class Interp:
         if isinstance(node, ast.Call):
             f = self.eval(node.func, env)
             args = []
+            if isinstance(f, ClosureV) and getattr(f, 'generator_helper', False):
+                consumer = self.consumers.get(id(node))
+                if consumer is None:
+                    raise Unsupported('generator helper %s whose value is not consumed at the call site' % f.node.name)
+                if any(isinstance(a, ast.Starred) for a in node.args) or any(k.arg is None for k in node.keywords):
+                    raise Unsupported('generator helper called with unpacked arguments')
+                return self.call_generator_helper(f, [self.eval(a, env) for a in node.args],
+                                                  {k.arg: self.eval(k.value, env) for k in node.keywords}, consumer)
             if isinstance(node.func, ast.Name) and node.func.id == 'super' and not node.args and not node.keywords:
                 # zero-argument super(): bound to the CURRENT value of the first parameter
                 a0 = (self.x.node.args.posonlyargs + self.x.node.args.args)
@@ -1920,6 +2366,12 @@ class Interp:
             # python accepts negative indexes; a correct index into a bitset vector is 0 <= i < len
             p.oblige('index@%s' % o.name, 'index', And(i.t >= 0, i.t < o.length))
             return o.at(i.t)
+        if isinstance(o, (TupleV, ListV)) and isinstance(i, BoolV):
+            # seq[b] with a bool: False is 0, True is 1 (`(y, x)[c]` for `x if c else y`); both cases are explored like a conditional
+            ii = 1 if p.branch(i.t) else 0
+            if ii >= len(o.items):
+                raise PyRaise('IndexError')
+            return o.items[ii]
         if isinstance(o, (TupleV, ListV)):
             if isinstance(i, IntV) and z3.is_int_value(z3.simplify(i.t)):
                 ii = z3.simplify(i.t).as_long()
